@@ -1,0 +1,24 @@
+//go:build verif
+
+// Contracts for the lvc verifier (comment-only file, compiled only with -tags verif).
+
+package mpckks
+
+// ---- copy constructors (property C10) ----
+//@ copy EncToShareProtocol.ShallowCopy
+//@   copied KeySwitchProtocol
+//@   shared params zero
+//@   fresh maskBigint buff
+
+//@ copy ShareToEncProtocol.ShallowCopy
+//@   copied KeySwitchProtocol
+//@   shared params zero
+//@   fresh tmp ssBigint
+
+//@ copy MaskedLinearTransformationProtocol.ShallowCopy
+//@   copied e2s s2e encoder
+//@   shared noise defaultScale prec
+//@   fresh mask
+
+//@ copy RefreshProtocol.ShallowCopy
+//@   copied MaskedLinearTransformationProtocol
